@@ -14,7 +14,7 @@ class MirrorError(Exception):
 
 
 SCALARS = {'int': 'int', 'bool': '_Bool', 'long': 'long', 'size_t': 'unsigned long',
-           'std::size_t': 'unsigned long', 'char': 'char', 'unsigned': 'unsigned'}
+           'std::size_t': 'unsigned long', 'char': 'char', 'unsigned': 'unsigned', 'unsignedint': 'unsigned'}
 
 
 def _code(toks):
@@ -121,8 +121,8 @@ class Mirror:
         ty = ty.replace('Theo::', '')
         if ty.startswith('const'):
             ty = ty[5:]
-        if ty.endswith('*'):
-            return 'void *'
+        if ty.endswith('*') or ty.endswith('&'):
+            return 'void *'  # reference members are pointers
         if ty in SCALARS:
             return SCALARS[ty]
         if ty in self.typedefs:
